@@ -2217,6 +2217,16 @@ func (s *swamp) SaveFunction(t treasure.Treasure, guardID guard.ID) treasure.Tre
 			}
 		}
 
+		if !t.IsContentTypeChanged() && t.IsModifiedAtChanged() {
+			// UpdatedAt moved: re-file the treasure under its new sort key in the
+			// built update-time index (same drop + re-add as the expiration case).
+			s.deleteTreasureIfBeaconInitialized(s.updateTimeBeaconASC, t.GetKey())
+			s.deleteTreasureIfBeaconInitialized(s.updateTimeBeaconDESC, t.GetKey())
+			if t.GetModifiedAt() != 0 {
+				s.addToUpdateTimeBeacon(t)
+			}
+		}
+
 		// the treasure is modified, we need to add it to the swamp and write it to the chroniclerInterface
 		s.treasuresWaitingForWriter.Add(t)
 
